@@ -41,3 +41,19 @@ Theorem C04_limit_is_min : forall (rating:R) cur m, rating <> 0 ->
   @apply_limit R RNum rating cur (Some m) = Some (Rmin rating m).
 Proof. exact apply_limit_is_min. Qed.
 Print Assumptions C04_limit_is_min.
+
+(* ---- the executable (Q) instance that is run against /repo and the proof (R) instance agree (Transfer*.v) ---- *)
+From Coq Require Import QArith.
+From SV Require Import Transfer TransferAll ExecProps.
+Theorem C04_exec_abort_iff_invalid_step : forall tbl eps (steps:list (@stepobs Q)),
+  @aborted Q (QNum tbl) eps steps = false <-> forallb (@step_ok Q (QNum tbl) eps) steps = true.
+Proof. exact run_exec_abort_iff_invalid_step. Qed.
+Print Assumptions C04_exec_abort_iff_invalid_step.
+Theorem C04_exec_step_ok_is_proof_model : forall tbl eps s s', SV_o_RunLoop_o_stepobs_R Q R QR s s' ->
+  @step_ok Q (QNum tbl) eps s = @step_ok R RNum (Q2R eps) s'.
+Proof. exact step_ok_transfer. Qed.
+Print Assumptions C04_exec_step_ok_is_proof_model.
+Theorem C04_exec_limit_rule_is_proof_model : forall tbl rating cur ev,
+  @apply_limit R RNum (Q2R rating) (option_map Q2R cur) (option_map Q2R ev) = option_map Q2R (@apply_limit Q (QNum tbl) rating cur ev).
+Proof. exact TransferK.apply_limit_transfer. Qed.
+Print Assumptions C04_exec_limit_rule_is_proof_model.
